@@ -37,6 +37,7 @@ from protocol import Exc, enc, to_json, from_json  # noqa: E402
 
 ALLOWED_AXIOMS = {'propext', 'Classical.choice', 'Quot.sound'}
 BATCH = 20000
+REPEAT_EVERY = 3
 
 
 class Infra(Exception):
@@ -306,6 +307,16 @@ def evaluate(prop, op, inputs, res, stream_name, keep_samples=2):
             break
         except Exception as e:  # an adapter must catch what the property observes; anything else is infra
             raise Infra('observation adapter crashed on %r: %s\n%s' % (inp, e, traceback.format_exc()))
+        # an observation is a function of the input alone: every REPEAT_EVERY-th case is observed a second time, and an
+        # answer that depends on how often or in which order the library was called is not an observation of the type
+        if len(obs) % REPEAT_EVERY == 0:
+            try:
+                if enc(prop.observe(op, inp)) != enc(o):
+                    o = Exc('NotRepeatable')
+            except protocol.StopStreams:
+                pass
+            except Exception:
+                o = Exc('NotRepeatable')
         obs.append(o)
         lines.append('%s l2 %s %s' % (op, enc(inp), enc(o)))
     replies = protocol.run_batch(lines)
